@@ -7,7 +7,7 @@ package main
 //	     enc  = m (quantities encoded minimally: major 0/1, bignum only beyond 64 bits)
 //	          | b (every quantity as a tagged bignum, also small ones)
 //	     in   = quantity of the token held by the spent input (0 = ada only)
-//	     mint = quantity minted (signed, 0 = no mint field)
+//	     mint = quantity minted (any signed integer, also beyond int64; 0 = no mint field)
 //	     qi   = quantity of the token in output i: any signed integer, "-" = ada-only output
 //	out: decode-err | acc | rej:<error types>
 //
@@ -102,8 +102,8 @@ func genC08(r *Rand, n int, tier string, emit func(string)) {
 			if sum.Sign() >= 0 && sum.Cmp(maxU) <= 0 {
 				in.Set(sum)
 			}
-		case 1: // all minted
-			if sum.Cmp(maxI) <= 0 && sum.Cmp(minI) >= 0 {
+		case 1: // all minted; the mint field decodes into *big.Int too, so also beyond int64
+			if (sum.Cmp(maxI) <= 0 && sum.Cmp(minI) >= 0) || r.Chance(1, 2) {
 				mint.Set(sum)
 			}
 		case 2: // split
@@ -156,7 +156,7 @@ func runC08(op string) string {
 	if _, err := fmt.Sscanf(f[5], "%d", &k); err != nil || !ok1 || !ok2 || len(f) != 6+k || k < 1 {
 		return "bad-op"
 	}
-	if in.Sign() < 0 || !in.IsUint64() || !mint.IsInt64() {
+	if in.Sign() < 0 || !in.IsUint64() {
 		return "bad-op"
 	}
 	key := g1NewKey(1)
